@@ -730,6 +730,14 @@ func (e *Engine) Run(t *core.Tape, cfg *core.Config, st *core.Stats) *core.Viola
 		if v3.class != base.class || v3.hNoLines != base.hNoLines {
 			return core.Violationf("nondeterministic-load", "Load and LoadFile (text behind a '#' line of %d bytes) disagree on %s (%s): %s vs %s (%s)\ninput: %s", fill+1, srcName, mutDesc, base.class, v3.class, v3.detail, quoteShort(src))
 		}
+		// the skipped line still counts as a line: positions are those of the text behind one line end
+		if v3.class == "function" {
+			vnl := loadOnce(L, strings.NewReader("\n"+src), "", 0)
+			st.Evals++
+			if vnl.class == "function" && vnl.hLines != v3.hLines {
+				return core.Violationf("line-numbers", "LoadFile of %s (%s) behind a '#' line of %d bytes: the source positions differ from those of the same text behind an empty first line\ninput: %s", srcName, mutDesc, fill+1, quoteShort(src))
+			}
+		}
 	}
 
 	// 4. deliveries
